@@ -96,6 +96,7 @@ PROPS['C03']={
   {'name':'basic','module':'harness.C03','cls':'Rules','quick':{'group':'basic','seq':1},'thorough':{'group':'basic','seq':1,'algs':True}},
   {'name':'match','module':'harness.C03','cls':'Rules','quick':{'group':'match','seq':1},'thorough':{'group':'match','seq':1}},
   {'name':'match_pairs','module':'harness.C03','cls':'Rules','quick':{'group':'pairs'},'thorough':{'group':'pairs'}},
+  {'name':'both_sides','module':'harness.C03','cls':'Rules','quick':{'group':'both','rate':20},'thorough':{'group':'both','rate':10}},
   {'name':'match_algorithms','module':'harness.C03','cls':'Rules','quick':{'group':'algs','rate':4},'thorough':{'group':'algs','rate':2}},
   {'name':'inspection_item','module':'harness.C03','cls':'Rules','quick':{'group':'match','seq':1,'item':'inspection','rate':200},'thorough':{'group':'basic','seq':1,'item':'inspection'}},
   {'name':'basic_seq2','module':'harness.C03','cls':'Rules','tier_only':'thorough','quick':{},'thorough':{'group':'basic','seq':2,'rate':2000,'small':True}},
